@@ -30,7 +30,7 @@ UNKNOWN = "qQ~#@%&*+/<>|{}"
 
 def plan(tier: str, seed: int) -> list[dict]:
     if tier == "quick":
-        return [{"kind": "api", "seed": seed * 1000 + i, "tables": 32, "strings": 20} for i in range(16)] + \
+        return [{"kind": "api", "seed": seed * 1000 + i, "tables": 48, "strings": 24} for i in range(32)] + \
                [{"kind": "prog", "seed": seed * 1000 + i, "n": 40} for i in range(16)]
     return [{"kind": "api", "seed": seed * 1000 + i, "tables": 160, "strings": 50} for i in range(64)] + \
            [{"kind": "prog", "seed": seed * 1000 + i, "n": 300} for i in range(32)]
